@@ -141,7 +141,9 @@ func c11Prelude() {
 		defer func() { _ = recover() }()
 		for _, setup := range []func(*lexer.Builder, *parser.Builder){
 			func(lb *lexer.Builder, pb *parser.Builder) { _ = pb.RegisterPostfixOperator(token.NOT, genericPostfix) },
-			func(lb *lexer.Builder, pb *parser.Builder) { _ = pb.RegisterPrefixOperator(token.ASSIGN, genericPrefix) },
+			func(lb *lexer.Builder, pb *parser.Builder) {
+				_ = pb.RegisterPrefixOperator(token.ASSIGN, genericPrefix)
+			},
 			func(lb *lexer.Builder, pb *parser.Builder) {
 				_ = pb.RegisterInfixOperator(lb.RegisterTokenType("^"), 7, genericInfix)
 				_ = pb.RegisterInfixOperator(lb.RegisterTokenType("%"), 13, genericInfix)
@@ -312,6 +314,32 @@ func oracleC11(c *oracleCtx) {
 		// an operand followed by a prefix operator on the next line / without separator
 		"a\n!b", "f(a !b)", "a\n-b", "a\n~b", "a !", "a\n!", "x = a\n!b\n"}
 	for _, f := range fixed {
+		for _, fl := range modeFlags {
+			checkC11(c, fl, f)
+		}
+		c.count(f)
+	}
+	// deep nesting (every configuration must print it): blocks, ifs, function bodies, parentheses, arrays, calls, objects
+	for _, d := range []int{33, 70, 140} {
+		for _, f := range []string{
+			strings.Repeat("{ ", d) + "a" + strings.Repeat(" }", d),
+			strings.Repeat("if (a) { ", d) + "b" + strings.Repeat(" }", d),
+			strings.Repeat("function f() { ", d) + "return 1" + strings.Repeat(" }", d),
+			"x = " + strings.Repeat("(", d) + "a" + strings.Repeat(")", d),
+			"x = " + strings.Repeat("[", d) + "a" + strings.Repeat("]", d),
+			"x = " + strings.Repeat("f(", d) + "a" + strings.Repeat(")", d),
+			"x = " + strings.Repeat("{k: ", d) + "1" + strings.Repeat("}", d),
+			"x = " + strings.Repeat("function() { return ", d) + "1" + strings.Repeat(" }", d),
+			strings.Repeat("while (a) { for (;;) { ", d/2) + "b" + strings.Repeat(" } }", d/2),
+		} {
+			for _, fl := range modeFlags {
+				checkC11(c, fl, f)
+			}
+			c.count(fmt.Sprintf("deep-%d|%s", d, f[:12]))
+		}
+	}
+	// numeric forms that do not parse as numbers: every error is on a token
+	for _, f := range []string{"let x = 0128;", "08", "09.5", "00009", "0787 + 1", "x = 0x;", "y = 0b2", "z = 0o8", "1e", "1e+", "9223372036854775808", "0x10000000000000000", "1e999", "0.0.0", "1__2", "1.e3", "089.1e"} {
 		for _, fl := range modeFlags {
 			checkC11(c, fl, f)
 		}
